@@ -591,6 +591,7 @@ def _run_props(res, ctx):
         run_baseline_exit(res, tmp)
         run_malformed_baseline(res, tmp)
         run_ini_foreign_keys(res, tmp)
+        run_stdin_exit(res, tmp)
         run_profile_names(res, tmp)
         check_tables(res, drv)
         res.exhaustive = thorough    # the full finite option space (incl. mixed spellings, all verbosities) only in thorough
@@ -954,6 +955,29 @@ def run_ini_foreign_keys(res, tmp):
                 elif label == "--ini" and ref_n is not None and n != ref_n:
                     res.violation("an undocumented INI key changed the findings reported", dict(replay, findings_without_ini=ref_n))
     os.remove(os.path.join(proj, ".bandit"))
+
+
+def run_stdin_exit(res, tmp):
+    """A program piped on standard input (`bandit -`): the report is written and the exit status goes with it, for every format, threshold and --exit-zero, exactly as for
+    the same program scanned from a file (seeded change C03-m17 closed the buffered copy of the piped source when the scan of <stdin> ended: every format that shows code
+    excerpts then failed at report time — no report, exit status 1 even with --exit-zero)."""
+    src = "import subprocess\nassert x\nsubprocess.Popen(c, shell=True)\npassword = 'pw'\n"
+    fpath = _write(os.path.join(tmp, "stdin_ref.py"), src)
+    for fmt in ("json", "txt", "yaml", "html", "csv", "custom", "sarif"):        # (xml writes to sys.stdout.buffer, which the in-process capture does not have)
+        for thr in ([], ["-ll"], ["-lll", "-iii"], ["-ii"]):
+            for ez in ([], ["--exit-zero"]):
+                ref = C.run_cli(["-f", fmt] + thr + ez + [fpath])
+                r = C.run_cli(["-f", fmt] + thr + ez + ["-"], stdin_bytes=src.encode())
+                res.case(("stdin-exit", fmt, tuple(thr), bool(ez)), True)
+                res.count("stream:stdin-exit")
+                replay = {"stream": "stdin-exit", "argv": ["-f", fmt] + thr + ez + ["-"], "program_on_stdin": src, "exit": r["exit"], "exc": r["exc"], "exc_msg": r.get("exc_msg"),
+                          "same_program_from_a_file": {"exit": ref["exit"], "exc": ref["exc"], "report_bytes": len(ref["out"])}, "report_bytes": len(r["out"])}
+                if r["exc"] is not None or r["exit"] not in (0, 1):
+                    res.violation("no report / a traceback for a program piped on standard input", replay)
+                elif r["exit"] != ref["exit"] or (len(r["out"]) == 0) != (len(ref["out"]) == 0):
+                    res.violation("a program piped on standard input ends with another exit status (or without a report) than the same program scanned from a file", replay)
+                elif ez and r["exit"] != 0:
+                    res.violation("--exit-zero did not give exit status 0 for a program piped on standard input", replay)
 
 
 def run_profile_names(res, tmp):
